@@ -1,19 +1,251 @@
 package symgo
 
 import (
+	"fmt"
 	"go/types"
 
 	"golang.org/x/tools/go/ssa"
+
+	"verif/smt"
 )
 
-// scheduler: placeholder; goroutines are added in sched_go.go.
-type scheduler struct{}
+// Goroutines and channels, as far as bondmachine.VM.Step needs them.
+//
+// Model: every interpreted goroutine runs on its own host goroutine, but only
+// the holder of the baton executes; control changes hands only when the running
+// goroutine blocks on a receive. Sends never block (channels behave as unbounded
+// queues) and a receive takes the oldest complete item. Which blocked-but-ready
+// goroutine runs next is a deterministic policy with a harness-visible order
+// (Interp.SchedOrder). This reproduces barrier protocols such as VM.Step's; it
+// does not explore Go's scheduler, rendezvous timing or data races.
+
+type chanItem struct {
+	g *smt.Term // guard under which the item was sent (true: complete)
+	v Value
+}
+
+type gor struct {
+	id      int
+	wake    chan struct{}
+	done    bool
+	started bool
+	waitOn  *ChanObj
+	// saved per-goroutine interpreter context
+	gs    []gframe
+	depth int
+}
+
+type goexit struct{}
+
+type scheduler struct {
+	gs      []*gor
+	cur     *gor
+	failure interface{}
+	abort   bool
+}
+
+func (in *Interp) scheduler() *scheduler {
+	if in.sched == nil {
+		main := &gor{id: 0, wake: make(chan struct{}), started: true}
+		in.sched = &scheduler{gs: []*gor{main}, cur: main}
+	}
+	return in.sched
+}
+
+func (c *ChanObj) ready(in *Interp) bool {
+	if len(c.items) == 0 {
+		return false
+	}
+	g := c.items[0].g
+	if g.IsTrue() {
+		return true
+	}
+	// a send made on both arms of a branch: complete when the guards cover the path
+	return !in.feasible(in.St.Not(g))
+}
+
+func (in *Interp) runnable(g *gor) bool {
+	if g.done {
+		return false
+	}
+	if g.waitOn == nil {
+		return true
+	}
+	return g.waitOn.ready(in)
+}
+
+// pickNext chooses the next goroutine to run after cur blocks.
+func (in *Interp) pickNext(cur *gor) *gor {
+	s := in.sched
+	// preferred order first
+	for _, id := range in.SchedOrder {
+		if id >= 0 && id < len(s.gs) && s.gs[id] != cur && in.runnable(s.gs[id]) {
+			return s.gs[id]
+		}
+	}
+	for _, g := range s.gs {
+		if g != cur && in.runnable(g) {
+			return g
+		}
+	}
+	return nil
+}
+
+func (in *Interp) saveCtx(g *gor) {
+	g.gs = in.gs
+	g.depth = in.depth
+}
+
+func (in *Interp) loadCtx(g *gor) {
+	in.gs = g.gs
+	in.depth = g.depth
+}
+
+// switchTo hands the baton to next and parks the current host goroutine until it
+// is woken again (unless the current goroutine is finished).
+func (in *Interp) switchTo(cur, next *gor, park bool) {
+	s := in.sched
+	in.saveCtx(cur)
+	s.cur = next
+	in.loadCtx(next)
+	next.wake <- struct{}{}
+	if park {
+		<-cur.wake
+		if s.abort {
+			panic(goexit{})
+		}
+		if s.failure != nil && cur.id == 0 {
+			f := s.failure
+			s.failure = nil
+			panic(f)
+		}
+	}
+}
 
 func (in *Interp) goStmt(fr *Frame, env Env, g *ssa.Go) {
-	panic(in.unsupported("go statement"))
+	if !in.Guard().IsTrue() {
+		panic(in.unsupported("go statement under a symbolic guard"))
+	}
+	c := g.Call
+	fv, args := in.prepareCall(env, &c)
+	s := in.scheduler()
+	gr := &gor{id: len(s.gs), wake: make(chan struct{})}
+	s.gs = append(s.gs, gr)
+	go func() {
+		<-gr.wake
+		if s.abort {
+			return
+		}
+		gr.started = true
+		defer func() {
+			r := recover()
+			if r != nil {
+				switch r.(type) {
+				case goexit:
+					return
+				case killPath:
+					// this goroutine's path died: it simply stops
+				default:
+					s.failure = r
+				}
+			}
+			gr.done = true
+			// hand the baton on: prefer main when a failure must be reported
+			var next *gor
+			if s.failure != nil {
+				next = s.gs[0]
+			} else {
+				next = in.pickNext(gr)
+			}
+			if next == nil {
+				next = s.gs[0]
+			}
+			in.switchTo(gr, next, false)
+		}()
+		in.invoke(fv, args, &c)
+	}()
 }
-func (in *Interp) chanSend(ch Value, v Value) { panic(in.unsupported("channel send")) }
+
+func (in *Interp) chanOf(v Value) *ChanObj {
+	cv, ok := v.(*ChanVal)
+	if !ok {
+		panic(in.unsupported("channel operation on " + describe(v)))
+	}
+	if cv.C == nil {
+		panic(in.unsupported("operation on a nil channel (blocks forever)"))
+	}
+	return cv.C
+}
+
+func (in *Interp) chanSend(ch Value, v Value) {
+	c := in.chanOf(ch)
+	in.scheduler()
+	g := in.Guard()
+	if n := len(c.items); n > 0 && !c.items[n-1].g.IsTrue() && !g.IsTrue() {
+		// the other arm of a branch already sent: one item, merged
+		last := &c.items[n-1]
+		last.v = in.merge(g, v, last.v)
+		last.g = in.St.Or(last.g, g)
+		return
+	}
+	c.items = append(c.items, chanItem{g: g, v: v})
+}
+
 func (in *Interp) chanRecv(ch Value, commaOk bool, t types.Type) Value {
-	panic(in.unsupported("channel receive"))
+	c := in.chanOf(ch)
+	s := in.scheduler()
+	if !in.Guard().IsTrue() {
+		panic(in.unsupported("channel receive under a symbolic guard"))
+	}
+	cur := s.cur
+	for !c.ready(in) {
+		cur.waitOn = c
+		next := in.pickNext(cur)
+		if next == nil {
+			if cur.id == 0 {
+				panic(in.unsupported(fmt.Sprintf("deadlock: main blocks on a receive and no goroutine can run (chan %d)", c.ID)))
+			}
+			// park forever: give control back to main
+			next = s.gs[0]
+			if next == cur || !in.runnable(next) {
+				panic(in.unsupported("deadlock: every goroutine is blocked"))
+			}
+		}
+		in.switchTo(cur, next, true)
+	}
+	cur.waitOn = nil
+	it := c.items[0]
+	c.items = c.items[1:]
+	if commaOk {
+		return &TupleVal{E: []Value{it.v, in.St.T}}
+	}
+	return it.v
 }
-func (in *Interp) selectStmt(env Env, s *ssa.Select) Value { panic(in.unsupported("select")) }
+
+func (in *Interp) selectStmt(env Env, s *ssa.Select) Value {
+	if len(s.States) != 1 || !s.Blocking || s.States[0].Dir != types.RecvOnly {
+		panic(in.unsupported("select with other than one blocking receive"))
+	}
+	v := in.chanRecv(in.get(env, s.States[0].Chan), false, nil)
+	// result tuple: (index, recvOk, recv values...)
+	return &TupleVal{E: []Value{in.St.BV(0, 64), in.St.T, v}}
+}
+
+// StopGoroutines releases every parked host goroutine (called when a run ends).
+func (in *Interp) StopGoroutines() {
+	s := in.sched
+	if s == nil {
+		return
+	}
+	s.abort = true
+	for _, g := range s.gs[1:] {
+		if !g.done {
+			select {
+			case g.wake <- struct{}{}:
+			default:
+				// not parked on wake (never scheduled host goroutines are parked too, so this is rare)
+				go func(g *gor) { g.wake <- struct{}{} }(g)
+			}
+		}
+	}
+}
